@@ -35,6 +35,8 @@ var slotDefs = []slotDef{
 	// string for an enum (which arrives as a ggql.Symbol), an application string type for a String
 	{"tint", "String", []*hx.Arg{{Name: "c", Type: hx.Named("Color").NN()}}, "Tint"},
 	{"tag", "String", []*hx.Arg{{Name: "l", Type: hx.Named("String").NN()}}, "Tag"},
+	// a method taking an optional argument in an interface{} parameter (nil when it is not given)
+	{"opt", "String", []*hx.Arg{{Name: "o", Type: hx.Named("String")}}, "Opt"},
 	{"vals", "[V]", nil, "Vals"}, {"val", "V", nil, "Val"},
 }
 
